@@ -6,7 +6,7 @@
 set -u
 SRC=$1; FILTER=$2; NAME=$(echo "$SRC" | tr '/' '_')
 WT=/tmp/ver/wt_$NAME
-export CARGO_NET_OFFLINE=true CARGO_TARGET_DIR=/tmp/ver/target
+export CARGO_NET_OFFLINE=true CARGO_TARGET_DIR=/tmp/ver/target${VER_LANE:-}
 git -C /repo worktree remove --force $WT 2>/dev/null
 git -C /repo worktree add -q --detach $WT HEAD || exit 9
 cd $WT
